@@ -20,12 +20,20 @@ RULE = ('angle sequences of length 1..40 on a quarter-degree grid in [0,360) tha
         'buffers 0, default, next to every self-wrap threshold, max accepted - 0.25, random (quarter grid) x '
         'containers float64/float32/list; helper calls on every (state, angle incl. exact gate values); wrappers on '
         'the bundled peptide topology with real and random coordinates; transitions on random 1-D/2-D/ragged '
-        'state arrays in 8 integer dtypes with quiet rows at start/middle/end/everywhere.  A case is non-trivial '
+        'state arrays in 8 integer dtypes with quiet rows at start/middle/end/everywhere.  Blind-spot families: '
+        'sequences of 300 and 70000 frames, 300 trajectories, transitions only beyond position 255/65535; angle '
+        'containers float64/float32/list/tuple/int64/int32/int16/list-of-int, boundaries as list/tuple/int64/int32/'
+        'float64 ndarray, buffer as int/float/np.float64/np.float32/np.int64/keyword/omitted(default); angles and '
+        'buffers within 2^-30 of a gate / boundary / threshold / limit of the accepted range (exact in float64), '
+        'angles 0 and 360-2^-30; constant sequences, 1-3 frames; strided / reversed / Fortran / transposed views; '
+        'every call made twice on the same argument objects with the arguments snapshotted.  A case is non-trivial '
         'when the state changes at least once or a buffer kept a state that plain binning would change '
         '(rotamers) / at least one transition exists (transitions); distinct by canonical input')
 ASSUMPTIONS = ['angles, boundaries and buffers on the quarter-degree grid are exact in float64 and float32, so the '
                'Rat model sees the same numbers as the code',
-               'numpy comparison of a float32 scalar with a Python int/float on that grid is exact (NEP 50 weak scalars)',
+               'numpy comparison of a float32 scalar with a Python int/float on that grid is exact (NEP 50 weak scalars); '
+               'float32 angle arrays / np.float32 buffers are only generated when every angle and the buffer are on the '
+               'quarter grid (with a float32 operand numpy compares in float32, where the 2^-30 offsets do not exist)',
                'np.digitize(x, increasing bins) = number of bins <= x (numpy contract, re-checked on every exit)',
                'mdtraj.compute_dihedrals on the atom quadruples a wrapper returns gives the dihedral angles it binned; '
                'the conversion to [0,360) (and the psi shift) is repeated with the same float32 operations',
@@ -173,6 +181,7 @@ def translate(repo_dir, gen_dir):
 # oracles written from the property text (exact rational arithmetic)
 
 Q = Fraction(1, 4)
+EPS = Fraction(1, 2 ** 30)          # ~ 9.3e-10; g +- EPS is exact in float64 for every g below 512 on the grid
 
 
 def F(x):
@@ -187,10 +196,10 @@ def basin_of(hb, a):
     return None
 
 
-def in_widened(hb, b, s, a):
-    """angle a (degrees, on the circle) lies in basin s widened by b on both sides"""
+def in_widened(hb, b, s, a, full=360):
+    """angle a (degrees, on the circle of circumference `full`) lies in basin s widened by b on both sides"""
     lo, hi = hb[s] - b, hb[s + 1] + b
-    return any(lo <= a + 360 * k <= hi for k in (-2, -1, 0, 1, 2))
+    return any(lo <= a + full * k <= hi for k in (-2, -1, 0, 1, 2))
 
 
 def gate_values(hb, b):
@@ -201,8 +210,8 @@ def gate_values(hb, b):
     return g
 
 
-def spec_step(hb, b, s, a):
-    return s if in_widened(hb, b, s, a) else basin_of(hb, a)
+def spec_step(hb, b, s, a, full=360):
+    return s if in_widened(hb, b, s, a, full) else basin_of(hb, a)
 
 
 def self_wrapping_basins(hb, b):
@@ -277,6 +286,28 @@ def gen_angles(rng, hb, b, kind, n):
         for _ in range(n):
             v = hb[int(rng.integers(0, len(hb) - 1))]     # 360 itself is outside [0,360)
             ang.append((v + Fraction(int(rng.choice([-1, 0, 0, 1])), 4)) % 360)
+    elif kind == 'near-gate':
+        # within 2^-30 (~1e-9) degree of a gate or of a hard boundary, on either side; exact in float64
+        pts = gates + [v for v in hb if v < 360]
+        ang = []
+        for _ in range(n):
+            g = pts[int(rng.integers(0, len(pts)))]
+            ang.append((g + int(rng.choice([-2, -1, 1, 2])) * EPS) % 360)
+    elif kind == 'edge':
+        # exactly 0, just below 360, just above 0
+        pool = [Fraction(0), 360 - EPS, 360 - Q, EPS, Q, Fraction(180), 360 - 2 * EPS]
+        ang = [pool[int(rng.integers(0, len(pool)))] for _ in range(n)]
+    elif kind == 'constant':
+        v = Fraction(int(rng.integers(0, 1440)), 4)
+        if rng.random() < 0.4:
+            g = gates[int(rng.integers(0, len(gates)))]
+            v = (g + int(rng.choice([-1, 1])) * Q) % 360          # a constant sitting in a buffer zone
+        ang = [v] * n
+    elif kind == 'integer':
+        ang = [Fraction(int(rng.integers(0, 360))) for _ in range(n)]
+        gs = set(gates)
+        ang = [a if a not in gs else (a + 1) % 360 for a in ang]
+        ang = [a if a not in gs else (a + 1) % 360 for a in ang]
     else:
         raise ValueError(kind)
     return fix_gates(ang, set(gates), rng)
@@ -285,55 +316,110 @@ def gen_angles(rng, hb, b, kind, n):
 def buffer_choices(hb, rng):
     nb = len(hb) - 1
     maxb = Fraction(360, nb)
-    specials = [Fraction(0), Fraction(15), Q, maxb - Q, maxb / 2]
+    specials = [Fraction(0), Fraction(15), Q, maxb - Q, maxb / 2, EPS, maxb - EPS]
     for i in range(nb):
         thr = (360 - (hb[i + 1] - hb[i])) / 2          # self-wrap threshold of basin i
-        specials += [thr - Q, thr, thr + Q]
+        specials += [thr - Q, thr, thr + Q, thr - EPS, thr + EPS]
     specials = [s for s in specials if 0 <= s < maxb]
     if rng.random() < 0.55:
         return specials[int(rng.integers(0, len(specials)))]
     return Fraction(int(rng.integers(0, int(maxb * 4))), 4)
 
 
-KINDS = ['uniform', 'walk', 'seam', 'dwell', 'jump', 'boundary']
-CONTAINERS = ['float64', 'float32', 'list']
+KINDS = ['uniform', 'walk', 'seam', 'dwell', 'jump', 'boundary', 'near-gate', 'edge', 'constant', 'integer']
+CONTAINERS = ['float64', 'float32', 'list', 'tuple']
+INT_CONTAINERS = ['int64', 'int32', 'int16', 'list-int']
+HB_FORMS = ['list', 'list', 'tuple', 'array-int64', 'array-int32', 'array-float64']
+B_FORMS = ['py', 'py', 'np.float64', 'np.float32', 'np.int64', 'kw']
 
 
-def gen_rot_case(rng, sets, force_set=None):
+def finish_rot_case(rng, name, hb, b, kind, ang, default_b=None):
+    """choose the argument containers: only forms that hold the exact values"""
+    on_grid = all(a.denominator in (1, 2, 4) for a in ang)
+    integral = all(a.denominator == 1 for a in ang)
+    if integral and rng.random() < 0.5:
+        cont = INT_CONTAINERS[int(rng.integers(0, len(INT_CONTAINERS)))]
+    else:
+        cont = CONTAINERS[int(rng.integers(0, len(CONTAINERS)))]
+        if cont == 'float32' and not (on_grid and b.denominator in (1, 2, 4)):
+            cont = 'float64'            # a float32 operand makes numpy compare in float32: only exact values
+    b_form = B_FORMS[int(rng.integers(0, len(B_FORMS)))]
+    if b_form == 'np.int64' and b.denominator != 1:
+        b_form = 'np.float64'
+    if b_form == 'np.float32' and not (on_grid and b.denominator in (1, 2, 4)):
+        b_form = 'np.float64'
+    if default_b is not None and b == default_b and rng.random() < 0.5:
+        b_form = 'omitted'                                # rely on the default of buffer_width
+    return {'t': 'rot', 'set': name, 'hb': [num(v) for v in hb], 'b': rat(b), 'angles': [rat(a) for a in ang],
+            'kind': kind, 'container': cont, 'hb_form': HB_FORMS[int(rng.integers(0, len(HB_FORMS)))],
+            'b_form': b_form}
+
+
+def gen_rot_case(rng, sets, force_set=None, force_kind=None, n=None):
     name = force_set or ['phi', 'psi', 'chi'][int(rng.integers(0, 3))]
     hb = [F(v) for v in sets[name]]
     b = buffer_choices(hb, rng)
-    kind = KINDS[int(rng.integers(0, len(KINDS)))]
-    n = int(rng.choice([1, 2, 3, 5, 8, 13, 21, 40]))
+    kind = force_kind or KINDS[int(rng.integers(0, len(KINDS)))]
+    if n is None:
+        n = int(rng.choice([1, 2, 3, 5, 8, 13, 21, 40]))
     ang = gen_angles(rng, hb, b, kind, n)
-    return {'t': 'rot', 'set': name, 'hb': [num(v) for v in hb], 'b': rat(b), 'angles': [rat(a) for a in ang],
-            'kind': kind, 'container': CONTAINERS[int(rng.integers(0, 3))],
-            'hb_as_array': bool(rng.random() < 0.3)}
+    return finish_rot_case(rng, name, hb, b, kind, ang)
 
 
 # ----------------------------------------------------------------------------------------------
 # rotamers: real call + checks
 
-def call_rotamers(case):
-    from enspara.geometry import rotamer
+def build_rot_args(case):
     ang = [Fraction(*a) for a in case['angles']]
-    b = Fraction(*case['b'])
-    vals = [float(a) for a in ang]
     cont = case.get('container', 'float64')
-    if cont == 'float64':
-        arr = np.array(vals, dtype=np.float64)
+    if cont in ('int64', 'int32', 'int16'):
+        arr = np.array([int(a) for a in ang], dtype=cont)
+    elif cont == 'list-int':
+        arr = [int(a) for a in ang]
+    elif cont == 'float64':
+        arr = np.array([float(a) for a in ang], dtype=np.float64)
     elif cont == 'float32':
-        arr = np.array(vals, dtype=np.float32)
+        arr = np.array([float(a) for a in ang], dtype=np.float32)
+    elif cont == 'tuple':
+        arr = tuple(float(a) for a in ang)
     else:
-        arr = list(vals)
+        arr = [float(a) for a in ang]
+    form = case.get('hb_form', 'array-int64' if case.get('hb_as_array') else 'list')
     hb = list(case['hb'])
-    if case.get('hb_as_array'):
-        hb = np.array(hb)
-    try:
-        out = rotamer._rotamers(arr, hb, num(b))
-    except Exception as e:  # noqa
-        return {'error': type(e).__name__}
-    return {'ok': [int(x) for x in out], 'dtype': str(getattr(out, 'dtype', '')), 'n': len(out)}
+    if form == 'tuple':
+        hb = tuple(hb)
+    elif form.startswith('array-'):
+        hb = np.array(hb, dtype=form[6:])
+    b = Fraction(*case['b'])
+    bf = case.get('b_form', 'py')
+    bv = {'np.float64': np.float64, 'np.float32': np.float32, 'np.int64': np.int64}.get(bf, lambda x: x)(num(b))
+    return arr, hb, bv, bf
+
+
+def _bytes(x):
+    return x.tobytes() if isinstance(x, np.ndarray) else repr(x)
+
+
+def call_rotamers(case):
+    """two calls with the SAME argument objects; argument contents are snapshotted around them"""
+    from enspara.geometry import rotamer
+    arr, hb, bv, bf = build_rot_args(case)
+    snap = (_bytes(arr), _bytes(hb))
+    outs = []
+    for _ in range(2):
+        try:
+            if bf == 'omitted':
+                out = rotamer._rotamers(arr, hb)
+            elif bf == 'kw':
+                out = rotamer._rotamers(angles=arr, hard_boundaries=hb, buffer_width=bv)
+            else:
+                out = rotamer._rotamers(arr, hb, bv)
+        except Exception as e:  # noqa
+            return {'error': type(e).__name__}
+        outs.append(out)
+    out = outs[0]
+    return {'ok': [int(x) for x in out], 'dtype': str(getattr(out, 'dtype', '')), 'n': len(out),
+            'ok2': [int(x) for x in outs[1]], 'unchanged': snap == (_bytes(arr), _bytes(hb))}
 
 
 ERRMAP = {'DataInvalid': 'data-invalid', 'IndexError': 'index-error', 'ZeroDivisionError': 'zero-division',
@@ -351,13 +437,26 @@ def check_rot(ctx, case, got, model):
     nb = len(hb) - 1
     wraps = self_wrapping_basins(hb, b)
     tags = ['set=%s' % case['set'], 'kind=%s' % case['kind'], 'container=%s' % case.get('container'),
-            'b=0' if b == 0 else ('b-selfwrap' if wraps else 'b-regular'), 'len=%d' % len(ang)]
+            'hb-form=%s' % case.get('hb_form', 'list'), 'b-form=%s' % case.get('b_form', 'py'),
+            'b=0' if b == 0 else ('b-selfwrap' if wraps else 'b-regular'),
+            'len=%d' % len(ang) if len(ang) <= 40 else 'len>%d' % (65535 if len(ang) > 65535 else 255)]
+    if b.denominator > 4:
+        tags.append('b-within-1e-9-of-a-limit')
+    if any(a.denominator > 4 for a in ang):
+        tags.append('angle-within-1e-9-of-gate-or-edge')
     if 'error' in got:
         ctx.case(case, nontrivial=False, tags=tags + ['raised'])
         ctx.violation('_rotamers raised %s on an admissible input' % got['error'], case)
         return
     st = got['ok']
-    binned = [basin_of(hb, a) for a in ang]
+    # the oracle functions are generic in the number type: run them on integers (units of 2^-30 degree)
+    # when every value is a multiple of that unit -- same arithmetic, much faster than Fractions
+    S = 2 ** 30
+    if all(S % x.denominator == 0 for x in ang + hb + [b]):
+        o_hb, o_b, o_ang, o_full = [int(v * S) for v in hb], int(b * S), [int(a * S) for a in ang], 360 * S
+    else:
+        o_hb, o_b, o_ang, o_full = hb, b, ang, 360
+    binned = [basin_of(o_hb, a) for a in o_ang]
     changes = sum(1 for i in range(1, len(st)) if st[i] != st[i - 1])
     held = sum(1 for i in range(len(st)) if st[i] != binned[i])
     ctx.case(case, nontrivial=(changes > 0 or held > 0),
@@ -367,6 +466,13 @@ def check_rot(ctx, case, got, model):
         ctx.violation('state sequence has wrong length / invalid basin index / non-integer dtype',
                       dict(case, got=st))
         return
+    # object reuse: same argument objects, second call; arguments left as they were
+    if got.get('ok2', st) != st:
+        ctx.violation('second call with the same argument objects returns different states', dict(case, got=st, got2=got['ok2']))
+        return
+    if not got.get('unchanged', True):
+        ctx.violation('_rotamers modified its angle / boundary argument in place', case)
+        return
     # first frame
     if st[0] != binned[0]:
         ctx.violation('first frame is not the basin containing its angle', dict(case, got=st))
@@ -374,7 +480,7 @@ def check_rot(ctx, case, got, model):
     # hysteresis, step by step from the state the code was in
     bad_known, bad_other = [], []
     for i in range(1, len(st)):
-        exp = spec_step(hb, b, st[i - 1], ang[i])
+        exp = spec_step(o_hb, o_b, st[i - 1], o_ang[i], o_full)
         if st[i] != exp:
             prev = st[i - 1]
             if nb == 2 and prev in wraps and in_widened(hb, b, prev, ang[i]) and st[i] != prev:
@@ -523,6 +629,7 @@ def wrapper_scope(ctx, sets, shifts, wseed, thorough):
         trajs.append(('bundled-xtc', real[off:off + 400:4]))
     buffers = [15, 0, 30.25] if not thorough else [15, 0, 30.25, 60, 79.75, 100.5, 119.75]
     reqs, expect = [], []
+    xyz_before = {tname: trj.xyz.tobytes() for tname, trj in trajs}
     for tname, trj in trajs:
         for bw in buffers:
             for kind, fn in (('phi', rotamer.phi_rotamers), ('psi', rotamer.psi_rotamers),
@@ -539,6 +646,16 @@ def wrapper_scope(ctx, sets, shifts, wseed, thorough):
                                   dict(ident, t='wrapper', traj=tname, kind=kind, b=rat(b)))
                     continue
                 ctx.tag('wrapper:%s:%s' % (kind, tname))
+                try:
+                    again = fn(trj, buffer_width=bw)
+                    same = (np.array_equal(again[0], rots) and np.array_equal(again[1], got_inds)
+                            and trj.xyz.tobytes() == xyz_before[tname])
+                except Exception:  # noqa
+                    same = False
+                if not same:
+                    ctx.violation('%s_rotamers: second call on the same trajectory differs / coordinates modified' % kind,
+                                  dict(ident, t='wrapper', traj=tname, kind=kind, b=rat(b)))
+                    continue
                 # the dihedral angles of the atom quadruples the wrapper reports, converted to [0, 360) with
                 # the same float32 operations the library uses (so both sides bin bit-identical numbers)
                 try:
@@ -645,17 +762,34 @@ def gen_row(rng, n, dtype, style):
     return out
 
 
-def gen_t1(rng):
-    dtype = DTYPES[int(rng.integers(0, len(DTYPES)))]
-    n = int(rng.choice([0, 1, 2, 3, 5, 9, 17, 30]))
-    style = ['busy', 'sticky', 'quiet'][int(rng.choice([0, 0, 1, 1, 1, 1, 2]))]
-    return {'t': 't1', 'dtype': dtype, 'xs': gen_row(rng, n, dtype, style)}
+T1_VIEWS = ['plain', 'plain', 'strided', 'reversed']
+T2_FORMS = ['c', 'c', 'f', 'transposed-view', 'reversed-rows-view', 'strided-cols-view', 'ragged']
 
 
-def gen_t2(rng, form=None):
+def gen_t1(rng, n=None, style=None):
     dtype = DTYPES[int(rng.integers(0, len(DTYPES)))]
-    form = form or ['c', 'c', 'f', 'transposed-view', 'ragged'][int(rng.integers(0, 5))]
-    ntr = int(rng.choice([1, 2, 3, 4, 6]))
+    if n is None:
+        n = int(rng.choice([0, 1, 2, 3, 5, 9, 17, 30]))
+    style = style or ['busy', 'sticky', 'quiet'][int(rng.choice([0, 0, 1, 1, 1, 1, 2]))]
+    return {'t': 't1', 'dtype': dtype, 'xs': gen_row(rng, n, dtype, style),
+            'view': T1_VIEWS[int(rng.integers(0, len(T1_VIEWS)))]}
+
+
+def gen_t1_late(rng, n):
+    """a long quiet array whose only transitions sit beyond positions 255 / 65535"""
+    dtype = DTYPES[int(rng.integers(0, len(DTYPES)))]
+    xs = [1] * n
+    for pos in sorted({n - 1, n - 2, n - 7, n // 2 + 200}):
+        if 0 < pos < n:
+            xs[pos:] = [xs[pos - 1] ^ 1] * (n - pos)
+    return {'t': 't1', 'dtype': dtype, 'xs': xs, 'view': 'plain'}
+
+
+def gen_t2(rng, form=None, ntr=None, nf=None):
+    dtype = DTYPES[int(rng.integers(0, len(DTYPES)))]
+    form = form or T2_FORMS[int(rng.integers(0, len(T2_FORMS)))]
+    if ntr is None:
+        ntr = int(rng.choice([1, 2, 3, 4, 6]))
     pattern = int(rng.choice([0, 1, 2, 3, 4, 5, 5, 5, 5, 5, 1, 2, 3]))
     if form == 'ragged':
         lens = [int(rng.integers(2, 10)) for _ in range(ntr)]
@@ -663,8 +797,11 @@ def gen_t2(rng, form=None):
             lens[int(rng.integers(0, ntr))] = int(rng.integers(0, 2))      # a 0/1-frame trajectory
         if ntr >= 2 and len(set(lens)) == 1:
             lens[0] += 1
+        if nf is not None:
+            lens = [max(2, nf - int(rng.integers(0, 3))) for _ in range(ntr)]
     else:
-        nf = int(rng.choice([0, 1, 2, 3, 3, 5, 5, 8, 8, 12]))
+        if nf is None:
+            nf = int(rng.choice([0, 1, 2, 3, 3, 5, 5, 8, 8, 12]))
         lens = [nf] * ntr
     rows = []
     for i, L in enumerate(lens):
@@ -689,17 +826,31 @@ def ref_transitions(xs):
 
 
 def call_t1(case):
+    """two calls on the SAME array object (possibly a strided / reversed view); contents snapshotted"""
     from enspara.cards import disorder
-    a = np.array(case['xs'], dtype=case['dtype'])
+    xs, dtype, view = case['xs'], case['dtype'], case.get('view', 'plain')
+    if view == 'strided':
+        base = np.zeros(2 * len(xs), dtype=dtype)
+        base[::2] = xs
+        a = base[::2]
+    elif view == 'reversed':
+        a = np.array(xs[::-1], dtype=dtype)[::-1]
+    else:
+        a = np.array(xs, dtype=dtype)
     before = a.tobytes()
-    try:
-        out = disorder.transitions(a)
-    except Exception as e:  # noqa
-        return {'error': type(e).__name__}
-    return {'ok': [int(x) for x in out], 'ndim': int(np.ndim(out)), 'unchanged': a.tobytes() == before}
+    outs = []
+    for _ in range(2):
+        try:
+            outs.append(disorder.transitions(a))
+        except Exception as e:  # noqa
+            return {'error': type(e).__name__}
+    out = outs[0]
+    return {'ok': [int(x) for x in out], 'ok2': [int(x) for x in outs[1]], 'ndim': int(np.ndim(out)),
+            'unchanged': a.tobytes() == before}
 
 
 def call_t2(case):
+    """two calls on the SAME array object; contents snapshotted"""
     from enspara.cards import disorder
     from enspara import ra
     rows, dtype, form = case['rows'], case['dtype'], case['form']
@@ -707,6 +858,9 @@ def call_t2(case):
         return {'skipped': 'no data'}               # see check_t2
     if form == 'ragged':
         a = ra.RaggedArray([np.array(r, dtype=dtype) for r in rows])
+
+        def snap():
+            return a._data.tobytes()
     else:
         nf = len(rows[0]) if rows else 0
         base = np.array(rows, dtype=dtype).reshape(len(rows), nf)
@@ -714,27 +868,64 @@ def call_t2(case):
             a = np.asfortranarray(base)
         elif form == 'transposed-view':
             a = np.ascontiguousarray(base.T).T
+        elif form == 'reversed-rows-view':
+            a = np.ascontiguousarray(base[::-1])[::-1]
+        elif form == 'strided-cols-view':
+            big = np.zeros((len(rows), 2 * nf), dtype=dtype)
+            big[:, ::2] = base
+            a = big[:, ::2]
         else:
             a = base
-    try:
-        tt = disorder.transitions(a)
-    except Exception as e:  # noqa
-        return {'error': type(e).__name__}
-    try:
-        lengths = [int(x) for x in tt.lengths]
-        out = [[int(x) for x in tt[i]] for i in range(len(lengths))]
-    except Exception as e:  # noqa
-        return {'error': 'unreadable-result:' + type(e).__name__}
-    return {'ok': out, 'lengths': lengths}
+
+        def snap():
+            return a.tobytes()
+    before = snap()
+    res = []
+    for _ in range(2):
+        try:
+            tt = disorder.transitions(a)
+        except Exception as e:  # noqa
+            return {'error': type(e).__name__}
+        try:
+            lengths = [int(x) for x in tt.lengths]
+            res.append([[int(x) for x in tt[i]] for i in range(len(lengths))])
+        except Exception as e:  # noqa
+            return {'error': 'unreadable-result:' + type(e).__name__}
+    return {'ok': res[0], 'ok2': res[1], 'lengths': lengths, 'unchanged': snap() == before}
+
+
+def bool_probe(ctx):
+    """bool arrays are not a state dtype (numpy refuses `-` on booleans): outside the quantifier.
+    Probed so that the evidence says what happens; checked against the oracle if it ever returns."""
+    from enspara.cards import disorder
+    for a in (np.array([True, False, False, True]), np.array([[True, False, False], [False, False, True]])):
+        try:
+            tt = disorder.transitions(a)
+        except TypeError:
+            ctx.skip('bool state array: numpy refuses boolean subtraction (not a state dtype)')
+            continue
+        except Exception as e:  # noqa
+            ctx.skip('bool state array raised %s' % type(e).__name__)
+            continue
+        rows = [a.tolist()] if a.ndim == 1 else a.tolist()
+        got = [[int(x) for x in tt]] if a.ndim == 1 else [[int(x) for x in tt[i]] for i in range(len(rows))]
+        ctx.tag('t-bool-returned')
+        if got != [ref_transitions(r) for r in rows]:
+            ctx.violation('transitions on a bool array returns wrong frames', {'t': 'bool', 'rows': rows, 'got': got})
 
 
 def check_t1(ctx, case, got, model):
     xs = case['xs']
     ref = ref_transitions(xs)
     ctx.case(case, nontrivial=len(ref) > 0,
-             tags=['t1', 'dtype=%s' % case['dtype'], 't1-len=%d' % len(xs), 't1-quiet' if not ref else 't1-moves'])
+             tags=['t1', 'dtype=%s' % case['dtype'], 't1-view=%s' % case.get('view', 'plain'),
+                   't1-len=%d' % len(xs) if len(xs) <= 30 else 't1-len>%d' % (65535 if len(xs) > 65535 else 255),
+                   't1-quiet' if not ref else 't1-moves'])
     if 'error' in got:
         ctx.violation('transitions (1-D) raised %s' % got['error'], case)
+        return
+    if got.get('ok2', got['ok']) != got['ok'] or not got.get('unchanged', True):
+        ctx.violation('transitions (1-D): second call on the same array differs / the array was modified', case)
         return
     if got['ok'] != ref or got['ndim'] != 1:
         ctx.violation('transitions (1-D) does not report exactly the frames whose successor differs',
@@ -764,11 +955,17 @@ def check_t2(ctx, case, got, model):
         ctx.skip('ragged input with zero frames in total')
         return
     ctx.case(case, nontrivial=not quiet,
-             tags=['t2', 't2-form=%s' % case['form'], 'dtype=%s' % case['dtype'], 't2-ntraj=%d' % len(rows),
+             tags=['t2', 't2-form=%s' % case['form'], 'dtype=%s' % case['dtype'],
+                   't2-ntraj=%d' % len(rows) if len(rows) <= 6 else 't2-ntraj>255',
+                   ('t2-frames>%d' % (65535 if max(map(len, rows)) > 65535 else 255))
+                   if rows and max(map(len, rows)) > 255 else 't2-frames<=255',
                    't2-all-quiet' if quiet else 't2-moves'] + where + (['t2-short-ragged-row'] if short else []))
     if 'error' in got:
         ctx.violation('transitions (%s, %d trajectories) raised %s' % (case['form'], len(rows), got['error']),
                       case)
+        return
+    if got.get('ok2', got['ok']) != got['ok'] or not got.get('unchanged', True):
+        ctx.violation('transitions (2-D): second call on the same array differs / the array was modified', case)
         return
     if got['ok'] != ref or len(got['ok']) != len(rows):
         ctx.violation('transitions (2-D) is not the per-trajectory list of frames whose successor differs',
@@ -817,7 +1014,22 @@ def run(ctx):
             b = F(info['buffers'][name])
             c['b'] = rat(b)
             c['angles'] = [rat(a) for a in fix_gates([Fraction(*a) for a in c['angles']], gate_values(hb, b), ctx.rng)]
+            if b == F(info['buffers']['core']) and ctx.rng.random() < 0.5:
+                c['b_form'] = 'omitted'                  # _rotamers(angles, hard_boundaries): default buffer_width
+            if c.get('b_form') in ('np.float32', 'np.int64') and b.denominator != 1:
+                c['b_form'] = 'py'
+            if c['container'] in INT_CONTAINERS and any(Fraction(*a).denominator != 1 for a in c['angles']):
+                c['container'] = 'float64'               # an angle was moved off a gate by a quarter degree
             cases.append(c)
+    # sequences longer than 255 / 65535 frames (size boundaries), buffer-dwelling walks
+    for n, cnt in ((300, ctx.n(6, 40)), (70000, ctx.n(1, 4))):
+        for j in range(cnt):
+            cases.append(gen_rot_case(ctx.rng, sets, force_kind=['walk', 'dwell', 'uniform'][j % 3], n=n))
+    # every container / boundary form / buffer form at least a few times with the short degenerate shapes
+    for kind in ('constant', 'edge', 'near-gate', 'integer'):
+        for n in (1, 2, 3):
+            for _ in range(ctx.n(6, 40)):
+                cases.append(gen_rot_case(ctx.rng, sets, force_kind=kind, n=n))
     cases = [c for c in cases if Fraction(*c['b']) < Fraction(360, len(c['hb']) - 1)]
     errs = gen_err_cases(sets)
     resp = ctx.driver([rot_request(c) for c in cases + errs])
@@ -831,6 +1043,17 @@ def run(ctx):
     # transitions
     tcases = [gen_t1(ctx.rng) for _ in range(ctx.n(1500, 10000))]
     tcases += [gen_t2(ctx.rng) for _ in range(ctx.n(2500, 15000))]
+    # size boundaries: positions beyond 255 / 65535, more than 255 trajectories, long rows
+    for n, cnt in ((300, ctx.n(6, 40)), (70000, ctx.n(2, 6))):
+        for j in range(cnt):
+            tcases.append(gen_t1(ctx.rng, n=n, style=['sticky', 'busy'][j % 2]) if j % 3 else gen_t1_late(ctx.rng, n))
+    for j in range(ctx.n(4, 24)):
+        tcases.append(gen_t2(ctx.rng, form=T2_FORMS[j % len(T2_FORMS)], ntr=300, nf=int(ctx.rng.integers(2, 6))))
+    for j in range(ctx.n(3, 14)):
+        tcases.append(gen_t2(ctx.rng, form=T2_FORMS[j % len(T2_FORMS)], ntr=int(ctx.rng.integers(1, 4)), nf=300))
+    for j in range(ctx.n(1, 3)):
+        tcases.append(gen_t2(ctx.rng, form=['c', 'ragged', 'f'][j % 3], ntr=2, nf=70000))
+    bool_probe(ctx)
     tcases += [{'t': 't2', 'dtype': 'int64', 'form': 'c', 'rows': []},
                {'t': 't2', 'dtype': 'int16', 'form': 'c', 'rows': [[0, 0, 0], [0, 1, 0], [2, 2, 2], [1, 1, 0], [0, 0, 0]]},
                {'t': 't2', 'dtype': 'uint8', 'form': 'c', 'rows': [[0, 255], [255, 255]]}]
